@@ -17,7 +17,7 @@ CONSTANTS
   StackFrames = 300
   OutlineDepthLimit = 256
   NameTreeDepthLimit = 256
-  ChainLens = {1, 10, 100, 127, 128, 129, 130, 255, 256, 257, 258, 259, 299, 300, 301, 400}
+  ChainLens = {1, 10, 100, 127, 128, 129, 256, 257, 258, 299, 300, 301, 320}
   Emit = TRUE
   Scen = {"chain", "deref", "links", "kids"}
 INVARIANTS ChainOK StackOK PcOK Bounded RsrcDepth EmitInv
